@@ -1,11 +1,11 @@
 (* Proofs/CheckC18Marks.v — (group hI) what an accepted verdict of check_C18 means for op 1
-   (NodeMarks history): the rest of the line is exactly the count-prefixed encoding of a history of
+   (NodeMarks history): the rest of the line is exactly the count-prefixed encoding of a NON-EMPTY history of
    (operation, observed answer) pairs, and every observed answer is the answer of a plain SET of
    integers ([set_run], no executable model): Mark/Unmark returned normally (observed 0, never the
    panic code 2), Test(i) answered 1 exactly when i is in the set, Next(i) answered the least
    member greater than i, or -1 when there is none.  Composes the comparator with
    Proofs/Marks.v (marks_history).  Closed under the global context. *)
-From MM Require Import Base.Num Model.Marks Spec.MarkSet Proofs.Marks Check.C18 Proofs.CheckBase Proofs.CheckC18Base.
+From MM Require Import Base.Num Model.Marks Spec.MarkSet Proofs.Marks Check.C18 Proofs.C18MarksBig Proofs.CheckBase Proofs.CheckC18Base.
 Local Open Scope Z_scope.
 
 (* one history entry on the line: code id obs *)
@@ -66,22 +66,23 @@ Qed.
 Lemma marks_cmp_None : forall h m idx bits b, marks_cmp m h idx bits = (b, None) -> map snd h = m_run m (map fst h).
 Proof.
   induction h as [|[o obs] h IH]; intros m idx bits b H; [reflexivity|].
-  cbn [marks_cmp] in H. cbn [map fst snd m_run]. destruct (m_step m o) as [m' r] eqn:E.
+  cbn [marks_cmp] in H. cbn [map fst snd m_run]. rewrite m_step_c_eq in H. destruct (m_step m o) as [m' r] eqn:E.
   destruct (r =? obs) eqn:Er; [|discriminate]. apply Z.eqb_eq in Er. subst obs. f_equal. eapply IH. exact H.
 Qed.
 
 Definition marks_case_ok (rest : list Z) : Prop :=
-  exists h : list (mop * Z), rest = Z.of_nat (length h) :: flat_map enc_mop h /\ set_run (fun _ => False) h.
+  exists h : list (mop * Z), rest = Z.of_nat (length h) :: flat_map enc_mop h /\ h <> [] /\ set_run (fun _ => False) h.
 
 Theorem check_marks_sound : forall l c tag pos diag r,
   check_marks l = Some (verdict c tag pos diag, r) -> c = 0 \/ c = 1 -> c = 0 /\ r = [] /\ marks_case_ok l.
 Proof.
   intros l c tag pos diag r H Hc. unfold check_marks in H. pinv H. subst.
+  destruct (length a =? 0)%nat eqn:EL; [rejected Ev|]. apply Nat.eqb_neq in EL.
   destruct (marks_cmp m_new a 0 0) as [bits [[idx rr]|]] eqn:EM; [rejected Ev|].
   pose proof (verdict_code _ _ _ _ _ _ _ _ Ev) as C. unfold V_OK in C. subst c.
   split; [reflexivity|]. split; [reflexivity|]. exists a. split.
   - apply (plist_any_layout _ _ p_mop_layout) in E. rewrite app_nil_r in E. exact E.
-  - apply marks_cmp_None in EM. rewrite marks_history in EM.
+  - split; [intros ->; apply EL; reflexivity|]. apply marks_cmp_None in EM. rewrite marks_history in EM.
     apply (zs_run_set_run a [] (fun _ => False)); [intros x []| |exact EM].
     intro j. cbn. split; [intros []|discriminate].
 Qed.
